@@ -668,3 +668,155 @@ impl fmt::Display for NdVal {
         write!(f, "v{}", self.payload)
     }
 }
+
+// ---------------------------------------------------------------------------------------------
+// unusual layouts, all without drop glue and without a ledger (identity = class / tag packed into the bits):
+// a container must treat its elements through `==`, `Clone` and moves only, whatever their size and alignment.
+
+/// One-byte key with its own `==`: class = low 5 bits, tag = high 3 bits.  Bitwise comparison of the byte
+/// is NOT its equality.
+#[derive(Clone, Copy)]
+#[repr(transparent)]
+pub struct Tiny(pub u8);
+impl Tiny {
+    pub fn new(class: u32, tag: u32) -> Self {
+        Tiny(((class & 31) | ((tag & 7) << 5)) as u8)
+    }
+    pub fn class(&self) -> u32 {
+        u32::from(self.0 & 31)
+    }
+    pub fn tag(&self) -> u32 {
+        u32::from(self.0 >> 5)
+    }
+}
+impl PartialEq for Tiny {
+    fn eq(&self, o: &Self) -> bool {
+        self.0 & 31 == o.0 & 31
+    }
+}
+impl Eq for Tiny {}
+impl fmt::Debug for Tiny {
+    fn fmt(&self, f: &mut fmt::Formatter<'_>) -> fmt::Result {
+        write!(f, "T{}#{}", self.class(), self.tag())
+    }
+}
+impl fmt::Display for Tiny {
+    fn fmt(&self, f: &mut fmt::Formatter<'_>) -> fmt::Result {
+        write!(f, "t{}.{}", self.class(), self.tag())
+    }
+}
+
+/// Four-byte key with its own `==`: class = low 16 bits, tag = high 16 bits.
+#[derive(Clone, Copy)]
+#[repr(transparent)]
+pub struct Word(pub u32);
+/// Borrowed form of `Word`: the same four bytes, compared by the low 16 bits.
+#[repr(transparent)]
+#[derive(Debug)]
+pub struct WClass(pub u32);
+impl Word {
+    pub fn new(class: u32, tag: u32) -> Self {
+        Word((class & 0xFFFF) | ((tag & 0xFFFF) << 16))
+    }
+    pub fn class(&self) -> u32 {
+        self.0 & 0xFFFF
+    }
+    pub fn tag(&self) -> u32 {
+        self.0 >> 16
+    }
+}
+impl PartialEq for Word {
+    fn eq(&self, o: &Self) -> bool {
+        self.0 & 0xFFFF == o.0 & 0xFFFF
+    }
+}
+impl Eq for Word {}
+impl PartialEq for WClass {
+    fn eq(&self, o: &Self) -> bool {
+        self.0 & 0xFFFF == o.0 & 0xFFFF
+    }
+}
+impl Eq for WClass {}
+impl Borrow<WClass> for Word {
+    fn borrow(&self) -> &WClass {
+        // SAFETY: both are repr(transparent) over u32
+        unsafe { &*(self as *const Word).cast::<WClass>() }
+    }
+}
+impl fmt::Debug for Word {
+    fn fmt(&self, f: &mut fmt::Formatter<'_>) -> fmt::Result {
+        write!(f, "W{}#{}", self.class(), self.tag())
+    }
+}
+impl fmt::Display for Word {
+    fn fmt(&self, f: &mut fmt::Formatter<'_>) -> fmt::Result {
+        write!(f, "w{}.{}", self.class(), self.tag())
+    }
+}
+
+/// Value with a niche: `Option<NzVal>` is as large as `NzVal`, and the all-zero bit pattern is a valid value
+/// (`None` inside), unlike for references or boxes.
+#[derive(Clone, Copy, PartialEq, Eq, Default)]
+pub struct NzVal(Option<std::num::NonZeroU32>);
+impl NzVal {
+    pub fn new(p: u32) -> Self {
+        NzVal(std::num::NonZeroU32::new(p))
+    }
+    pub fn get(&self) -> u32 {
+        self.0.map_or(0, std::num::NonZeroU32::get)
+    }
+}
+impl fmt::Debug for NzVal {
+    fn fmt(&self, f: &mut fmt::Formatter<'_>) -> fmt::Result {
+        write!(f, "N{}", self.get())
+    }
+}
+impl fmt::Display for NzVal {
+    fn fmt(&self, f: &mut fmt::Formatter<'_>) -> fmt::Result {
+        write!(f, "n{}", self.get())
+    }
+}
+
+/// Over-aligned key (64 bytes) …
+#[derive(Clone, Copy)]
+#[repr(C, align(64))]
+pub struct AKey {
+    pub class: u32,
+    pub tag: u32,
+}
+impl PartialEq for AKey {
+    fn eq(&self, o: &Self) -> bool {
+        self.class == o.class
+    }
+}
+impl Eq for AKey {}
+impl Borrow<Class> for AKey {
+    fn borrow(&self) -> &Class {
+        // SAFETY: Class is repr(transparent) over u32
+        unsafe { &*(&self.class as *const u32).cast::<Class>() }
+    }
+}
+impl fmt::Debug for AKey {
+    fn fmt(&self, f: &mut fmt::Formatter<'_>) -> fmt::Result {
+        write!(f, "A{}#{}", self.class, self.tag)
+    }
+}
+impl fmt::Display for AKey {
+    fn fmt(&self, f: &mut fmt::Formatter<'_>) -> fmt::Result {
+        write!(f, "a{}.{}", self.class, self.tag)
+    }
+}
+/// … and over-aligned value (32 bytes): a pair is 128 bytes of which 12 carry data.
+#[derive(Clone, Copy, PartialEq, Eq, Default)]
+#[repr(C, align(32))]
+pub struct AVal(pub u32);
+impl fmt::Debug for AVal {
+    fn fmt(&self, f: &mut fmt::Formatter<'_>) -> fmt::Result {
+        write!(f, "AV{}", self.0)
+    }
+}
+impl fmt::Display for AVal {
+    fn fmt(&self, f: &mut fmt::Formatter<'_>) -> fmt::Result {
+        write!(f, "av{}", self.0)
+    }
+}
